@@ -1,8 +1,156 @@
-/- Driver for C19 (stub). -/
-import ControlModel.Basic
+/-
+  Driver for C19 (monitor style).  line = "input<TAB>implObs", see harness/props/c19.
+
+  The goroutine schedule of the real writer cannot be dictated, so the driver rebuilds a
+  MODEL schedule from the shape of the observation — which producer's event sits in which
+  batch, the batch sizes, how Close ended — runs the model (`Writer.runStrict codeCfg`)
+  on it and prints the MODEL's observation: accepted counts, batches with the model's own
+  sequence numbers and keys, how Close ended, what is left in channel/buffer, writes in
+  flight.  Agreement = string equality with the implementation's observation.  Anything
+  the model cannot do (a batch of 101, a producer's events out of order or twice, an event
+  missing without being in the buffer, Close returning with the channel non-empty or a
+  write in flight, a hang with a non-empty buffer, a wrong key, a blocked producer) makes the
+  two differ.
+-/
+import ControlModel.Model.Writer
+import ControlModel.Spec.C19
 
 namespace Driver.C19
+open Writer
 
-def processLine (_line : String) : String := "UNIMPLEMENTED\t0\t-"
+def parseProds (x : SExp) : Option (List Producer) := do
+  match x with
+  | .list (.atom "prods" :: ps) =>
+    ps.mapM? fun
+      | .list [k, e, t] => do
+          let kind ← Kind.ofIdx? (← k.nat?)
+          pure { kind := kind, env := (← e.nat?), task := (← t.nat?) }
+      | _ => none
+  | _ => none
+
+/-- events each producer publishes according to the script -/
+def scriptTotals (np : Nat) (ops : List SExp) : Option (List Nat) := do
+  let mut tot : List Nat := List.replicate np 0
+  for o in ops do
+    match o with
+    | .list [.atom "pub", p, n] | .list [.atom "spawn", p, n, _] =>
+        let p ← p.nat?
+        let n ← n.nat?
+        if p < np then tot := tot.set p (tot.getD p 0 + n) else none
+    | _ => pure ()
+  pure tot
+
+def parseStatus : SExp → Option CloseStatus
+  | .atom "returned" => some .returned
+  | .atom "hung" => some .hung
+  | .atom "none" => some .notCalled
+  | _ => none
+
+def parseObs (x : SExp) : Option Obs := do
+  match x with
+  | .list [.list (.atom "accepted" :: acc), .list (.atom "batches" :: bs), .list [.atom "close", st],
+           .list [.atom "left", c, b], .list [.atom "inflight", i]] =>
+    let accepted ← acc.mapM? SExp.nat?
+    let batches ← bs.mapM? fun b => do
+      (← b.list?).mapM? fun
+        | .list [p, s, k] => do pure ((← p.nat?), (← s.nat?), (← k.nat?))
+        | _ => none
+    pure { accepted, batches, status := (← parseStatus st), leftChan := (← c.nat?), leftBuf := (← b.nat?),
+           inflight := (← i.nat?) }
+  | _ => none
+
+def moves (n : Nat) : List Step := (List.replicate n [Step.batchRecv, Step.batchPush]).flatten
+
+/-- The model schedule for an observation of this shape. -/
+def schedOf (totals : List Nat) (o : Obs) : Option (List Step) := do
+  let shape := o.batches.map fun b => b.map (·.1)
+  let written := shape.flatten
+  let mut sched : List Step := []
+  for b in shape do
+    sched := sched ++ b.map Step.publish ++ moves b.length ++ [.writerSelect, .writerPop, .writeDone]
+  -- what was accepted and never written goes through channel and hand into the buffer
+  let mut p := 0
+  for t in totals do
+    let w := written.countP (· == p)
+    if w > t then none
+    sched := sched ++ (List.replicate (t - w) [Step.publish p, .batchRecv, .batchPush]).flatten
+    p := p + 1
+  match o.status with
+  | .returned => pure (sched ++ [.close, .batchDone, .broadcast, .writerSelect, .closeReturn])
+  | .hung => pure (sched ++ [.writerSelect, .close, .batchDone, .broadcast, .writerPop])
+  | .notCalled => pure sched
+
+def statusOf (s : State) : String :=
+  if s.closeCompleted then "returned"
+  else if s.closed && !canProgress codeCfg s && lostWakeup s then "hung"
+  else "none"
+
+def printModel (prods : List Producer) (s : State) : SExp :=
+  let acc := (List.range prods.length).map fun p => SExp.ofNat (countOf p s.pubs)
+  let bs := s.written.map fun b => SExp.list (b.map fun e =>
+    let key := match prods[e.1]? with
+      | some pr => keyOf pr.kind pr.env pr.task
+      | none => 9999
+    SExp.list [.ofNat e.1, .ofNat e.2, .ofNat key])
+  .list [.list (.atom "accepted" :: acc), .list (.atom "batches" :: bs), .list [.atom "close", .atom (statusOf s)],
+         .list [.atom "left", .ofNat (s.chan.length + s.hand.toList.length), .ofNat s.buf.length],
+         .list [.atom "inflight", .ofNat (if s.wpc == .writing then 1 else 0)]]
+
+def lostCount (o : Obs) : Nat := o.accepted.foldl (· + ·) 0 - o.delivered.length
+
+/-- Which excluded hypothesis (known finding) explains a Spec failure, if any. -/
+def hypOf (prods : List Producer) (o : Obs) : String :=
+  if !safeOk codeCfg.batchMax prods o then "-"
+  else if o.status == .returned && o.inflight == 0 && !allDelivered o.accepted o.delivered && o.leftBuf == lostCount o
+       && o.leftChan == 0 then
+    "close_drops_buffered"
+  else if o.status == .hung && allDelivered o.accepted o.delivered && o.leftBuf == 0 && o.leftChan == 0 then
+    "close_lost_wakeup"
+  else "-"
+
+def stormLine (n ok hung : Nat) : String :=
+  -- the two ways "nothing published, Close at some instant" can go in the model
+  let okRun := runStrict codeCfg init [.close, .batchDone, .broadcast, .writerSelect, .closeReturn]
+  let hungRun := runStrict codeCfg init [.writerSelect, .close, .batchDone, .broadcast, .writerPop]
+  let okPossible := match okRun with
+    | some s => s.closeCompleted
+    | none => false
+  let hungPossible := match hungRun with
+    | some s => statusOf s == "hung"
+    | none => false
+  let model :=
+    if ok + hung == n && (ok == 0 || okPossible) && (hung == 0 || hungPossible) then
+      s!"(storm {n} ok {ok} hung {hung})"
+    else "REJECT:storm-outcome-not-in-model"
+  let spec := hung == 0 && ok == n
+  s!"{model}\t{if spec then 1 else 0}\t{if hung > 0 && ok + hung == n then "close_lost_wakeup" else "-"}"
+
+def processLine (line : String) : String :=
+  match SExp.fields line with
+  | [inp, impl] =>
+    match SExp.parse inp, SExp.parse impl with
+    | some (.list [.atom "storm", n]), some (.list [.atom "storm", n', .atom "ok", a, .atom "hung", b]) =>
+      match n.nat?, n'.nat?, a.nat?, b.nat? with
+      | some n, some n', some a, some b => if n == n' then stormLine n a b else "REJECT:storm-size\t0\t-"
+      | _, _, _, _ => "BADINPUT\t0\t-"
+    | some (.list [prodsX, .list (.atom "park" :: _), .list (.atom "script" :: ops)]), some implX =>
+      match parseProds prodsX with
+      | none => "BADINPUT\t0\t-"
+      | some prods =>
+        match scriptTotals prods.length ops, parseObs implX with
+        | some totals, some o =>
+          let spec := Spec codeCfg.batchMax prods o
+          let hyp := if spec then "-" else hypOf prods o
+          let model :=
+            match schedOf totals o with
+            | none => "REJECT:more-written-than-accepted"
+            | some sched =>
+              match runStrict codeCfg init sched with
+              | none => "REJECT:reconstructed-schedule-not-enabled"
+              | some s => toString (printModel prods s)
+          s!"{model}\t{if spec then 1 else 0}\t{hyp}"
+        | _, _ => s!"REJECT:unparsable-observation\t0\t-"
+    | _, _ => "BADINPUT\t0\t-"
+  | _ => "BADLINE\t0\t-"
 
 end Driver.C19
